@@ -130,7 +130,11 @@ DiaV(a) ==
             <<"appears-inverted-iff-written-inverted",
                 \A i \in DOMAIN a.g.tr : a.g.tr[i][1] # a.g.tr[i][3] => T.inv[i] = a.g.winv[i]>>,
             <<"no-exception-without-markers " \o T.bare.exc, T.bare.exc = "">>,
-            <<"no-pushed-variable-without-markers", T.bare.exc = "" /\ \A i \in DOMAIN T.bare.pushed : T.bare.pushed[i] = NULL>> >>, 1)
+            <<"no-pushed-variable-without-markers", T.bare.exc = "" /\ \A i \in DOMAIN T.bare.pushed : T.bare.pushed[i] = NULL>>,
+            \* without markers a context is unknown unless it is a node that can have written the triple
+            <<"unknown-or-possible-context-without-markers",
+                \A i \in DOMAIN a.g.tr : T.bare.ctx[i] = NULL \/ T.bare.ctx[i] = a.g.tr[i][1]
+                                           \/ (a.g.tr[i][2] # ConceptRole /\ T.bare.ctx[i] = a.g.tr[i][3] /\ a.g.tr[i][3] \in Sources(a.g))>> >>, 1)
          IN IF v # Acc THEN v
             ELSE LET bare == [top |-> a.g.top, tr |-> a.g.tr, epi |-> [i \in DOMAIN a.g.tr |-> <<>>]] IN
                  IF T.bare.ctx # NodeContexts(bare) \/ T.bare.inv # [i \in DOMAIN bare.tr |-> AppearsInverted(bare, bare.tr[i])]
